@@ -27,6 +27,10 @@ type Tmpl struct {
 	// HdrDefault spells required header params with a default value
 	// ({@param x: any = 1}); the implementation parses and ignores it.
 	HdrDefault bool `json:"-"`
+	// Sp selects among equivalent spellings of the template tag and of its
+	// param declarations (spacing around ':' in {@param}, declared types,
+	// private="false", attribute order, soydoc descriptions)
+	Sp int `json:"-"`
 	Private    bool `json:"-"`
 }
 
@@ -180,34 +184,47 @@ func UnparseProgram(p *Program, st Style) []File {
 			} else if !t.Hdr {
 				b.WriteString("/**\n")
 				for _, pa := range t.Params {
+					desc := []string{"", " the " + pa.Name + " to show.", "\t(optional text)", "  - @see other"}[(t.Sp+len(pa.Name))%4]
 					if pa.Opt {
-						b.WriteString(" * @param? " + pa.Name + "\n")
+						b.WriteString(" * @param? " + pa.Name + desc + "\n")
 					} else {
-						b.WriteString(" * @param " + pa.Name + "\n")
+						b.WriteString(" * @param " + pa.Name + desc + "\n")
 					}
 				}
 				b.WriteString(" */\n")
 			}
 			b.WriteString("{template ." + Short(name))
+			var attrs []string
 			if t.TA != "" {
-				b.WriteString(` autoescape="` + t.TA + `"`)
+				attrs = append(attrs, ` autoescape="`+t.TA+`"`)
 			}
 			if t.Private {
-				b.WriteString(` private="true"`)
+				attrs = append(attrs, ` private="true"`)
+			} else if t.Sp%3 == 1 {
+				attrs = append(attrs, ` private="false"`)
+			}
+			if t.Sp%2 == 1 && len(attrs) == 2 {
+				attrs[0], attrs[1] = attrs[1], attrs[0]
+			}
+			b.WriteString(strings.Join(attrs, ""))
+			if t.Sp%5 == 4 {
+				b.WriteString(" ")
 			}
 			b.WriteString("}\n")
+			hdrForm := []string{"{@param%s %s: %s}\n", "{@param%s %s : %s}\n", "{@param%s  %s:%s}\n", "{@param%s %s: %s }\n", "{@param%s\t%s:\t%s}\n"}[t.Sp%5]
+			hdrType := []string{"any", "string", "?", "int"}[(t.Sp/5)%4]
 			if t.Both && len(t.Params) >= 2 {
 				for _, pa := range t.Params[1:] {
-					b.WriteString("{@param " + pa.Name + ": any}\n")
+					b.WriteString(fmt.Sprintf(hdrForm, "", pa.Name, hdrType))
 				}
 			} else if t.Hdr {
 				for _, pa := range t.Params {
 					if pa.Opt {
-						b.WriteString("{@param? " + pa.Name + ": any}\n")
+						b.WriteString(fmt.Sprintf(hdrForm, "?", pa.Name, hdrType))
 					} else if t.HdrDefault {
 						b.WriteString("{@param " + pa.Name + ": any = 1}\n")
 					} else {
-						b.WriteString("{@param " + pa.Name + ": any}\n")
+						b.WriteString(fmt.Sprintf(hdrForm, "", pa.Name, hdrType))
 					}
 				}
 			}
